@@ -302,6 +302,27 @@ def nestedAlternation (q : String) : Bool :=
     | st, _ :: rest => go st rest
   go [] toks
 
+/-- How supertypes are used in the query: "true" = some supertype head has child patterns (or negated
+fields / anchors) of its own, "bare" = supertype heads only as `(sup)` / `(sup/sub)`, "false" = none. -/
+def superUse (sups : List String) (q : String) : String :=
+  let toks := (tokenize (q.length + 1) q.toList #[]).toList
+  let afterHead : List Tok → List Tok
+    | .slash :: .ident _ :: r => r
+    | .slash :: .str _ :: r => r
+    | r => r
+  let rec go : List Tok → Bool × Bool
+    | [] => (false, false)
+    | .lp :: .ident k :: rest =>
+      let (a, b) := go rest
+      if sups.contains k then
+        match afterHead rest with
+        | .rp :: _ => (a, true)
+        | _ => (true, b)
+      else (a, b)
+    | _ :: rest => go rest
+  let (withKids, bare) := go toks
+  if withKids then "true" else if bare then "bare" else "false"
+
 def hasQuantifierToken (q : String) : Bool :=
   let toks := (tokenize (q.length + 1) q.toList #[]).toList
   toks.any fun t => match t with | .quant _ => true | _ => false
@@ -404,7 +425,7 @@ def runCase (s : St) : String :=
         let line := ((s.query.toList.take s.errOffset).filter (· == '\n')).length
         let modelHere := model.filter fun x => x.1 == line
         if s.errOffset > s.srcLen then s!"{s.id} judge=FAIL offset-outside-source {info}"
-        else if !s.hasError && !modelHere.isEmpty then s!"{s.id} judge=FAIL rejected-but-matches errkind={s.errKind} pattern={line} optional={optionalParts s.query} extras={decide ((s.query.splitOn "(comment").length > 1)} super={s.sups.any fun n => (s.query.splitOn ("(" ++ n)).length > 1} {info}"
+        else if !s.hasError && !modelHere.isEmpty then s!"{s.id} judge=FAIL rejected-but-matches errkind={s.errKind} pattern={line} optional={optionalParts s.query} extras={decide ((s.query.splitOn "(comment").length > 1)} super={superUse s.sups s.query} {info}"
         else s!"{s.id} judge=ok rejected={s.errKind} {info}"
 
 def step (s : St) (line : String) : IO St := do
